@@ -203,6 +203,8 @@ def parse_mc(lines):
             cur["before"] = dict(KV.findall(l))
         elif l.startswith("CHECK "):
             cur["checks"].append(dict(KV.findall(l)))
+        elif l.startswith("#CHECK "):
+            cur.setdefault("panic_checks", []).append(dict(KV.findall(l)))
         elif l.startswith("RESULT "):
             cur["result"] = l.split()[1:]
         elif l.startswith("STATUS "):
@@ -230,6 +232,13 @@ def mc_monitors(sc, runs, ref_runs):
         if r["result"] is None or r["result"][0] in ("FUEL", "PANIC"):
             if r["result"] and r["result"][0] == "PANIC":
                 fails.append(("C20:no_panic", "the model checker panicked in run %d" % k))
+                pcs = r.get("panic_checks", [])
+                crashed_run = any(c.get("cr", "[]") != "[]" for c in pcs) or any(l.startswith("CB CRASH") for l in sc[2])
+                if crashed_run:
+                    if any(c.get("x") == "1" for c in pcs):
+                        fails.append(("C14:purged", "run %d: after crash_node a pending event still touches a process of the crashed node (the run then panicked)" % k))
+                    else:
+                        fails.append(("C14:no_panic", "run %d with a crashed node panicked" % k))
             continue
         debug = rl is not None and rl[3] == "1"
         # --- C09: rolled back exactly
@@ -348,7 +357,7 @@ def mc_run_all(ctx, scs, can_run_model, tag, with_ref=True):
     ctx.clauses.update(["C09:rolled_back", "C09:mode_restored", "C14:purged", "C14:stays_silent", "C03:verdict_ok",
                         "C03:error_genuine", "C02:error_trace", "C16:collected_sound", "C16:collected_complete",
                         "C16:status_counts", "C02:state_genuine", "C03:exhaustive", "C03:verdict_kind", "C20:no_panic",
-                        "C19:depth_predicates", "C19:state_depth_current_run"])
+                        "C19:depth_predicates", "C19:state_depth_current_run", "C14:no_panic"])
     return impl, parsed
 
 
@@ -365,7 +374,7 @@ def suite_mc(ctx, can_run_model):
     scs = []
     meta = {}
     for j in range(n):
-        base = gen_mc.gen_base(rng)
+        base = gen_mc.gen_crash_base(rng) if j % 6 == 5 else gen_mc.gen_base(rng)
         feat_count(ctx, base["feat"])
         vm = rng.choice(["FULL", "PARTIAL", "DISABLED"])
         st = rng.choice(["BFS", "DFS"])
@@ -1176,6 +1185,56 @@ def suite_mc_repeat(ctx, can_run_model):
 
 
 # ---------------------------------------------------------------------------------------------------
+# staged runs under Full vs Disabled (C11 across stage boundaries: start states that differ only in parts the
+# equality must cover, e.g. what a node did before it was crashed in the stage-2 callback)
+
+def suite_mc_staged_modes(ctx, can_run_model):
+    rng = random.Random(ctx.seed * 1000003 + 79)
+    n = ctx.scale(60, 2500)
+    scs = []
+    groups = []
+    for j in range(n):
+        feat = gen_mc.gen_features(rng)
+        feat.update({"clock": False, "stateless": False, "override": False})
+        base = gen_mc.gen_base(rng, feat)
+        st = rng.choice(["BFS", "DFS"])
+        srng = random.Random(rng.randrange(1 << 30))
+        g = {}
+        for vm in ("FULL", "DISABLED"):
+            sc = gen_mc.staged(random.Random(srng.getstate()[1][0]), base, "sm%d-%d-%s" % (ctx.seed, j, vm), st, vm, debug=0)
+            # a common depth bound keeps the Disabled walks finite; both modes get the same predicates
+            lines = [l for l in sc[2] if not l.startswith("PRED PRUNE")]
+            k = [i for i, l in enumerate(lines) if l.startswith("RUN ")][0]
+            lines = lines[:k] + ["PRED PRUNE DEPTHGT 5"] + lines[k:]
+            g[vm] = ("MC", sc[1], lines)
+            scs.append(g[vm])
+        groups.append((base, g))
+    impl, parsed = mc_run_all(ctx, scs, can_run_model, "sm", with_ref=False)
+    ctx.clauses.update(["C11:modes_same_states", "C11:modes_same_verdict"])
+    for base, g in groups:
+        a, b = parsed[g["FULL"][1]], parsed[g["DISABLED"][1]]
+        if len(a) == 2 and len(b) == 2 and all(r["result"] and r["result"][0] in ("OK", "ERR") for r in a + b):
+            for k in (0, 1):
+                if a[k]["result"][0] != b[k]["result"][0]:
+                    ctx.monitor_failures.append({"clause": "C11:modes_same_verdict",
+                                                 "detail": "stage %d: Full %s, Disabled %s" % (k + 1, a[k]["result"][0], b[k]["result"][0]),
+                                                 "scenario": vlib.scenario_text(g["FULL"]), "impl": impl[g["FULL"][1]][:10],
+                                                 "seed": ctx.seed, "suite": "MCSTAGEDMODES", "feat": base["feat"]})
+                elif a[k]["result"][0] == "OK":
+                    # the depth bound is the only predicate that is not a function of the compared state: compare the
+                    # states strictly below it
+                    sa = set(c["eqp"] for c in a[k]["checks"] if int(c["d"]) - int(a[k]["before"]["d"]) < 3)
+                    sb = set(c["eqp"] for c in b[k]["checks"] if int(c["d"]) - int(b[k]["before"]["d"]) < 3)
+                    if k == 0 and sa != sb:
+                        ctx.monitor_failures.append({"clause": "C11:modes_same_states",
+                                                     "detail": "stage %d: Full evaluates %d, Disabled %d distinct shallow states" % (k + 1, len(sa), len(sb)),
+                                                     "scenario": vlib.scenario_text(g["FULL"]), "impl": impl[g["FULL"][1]][:10],
+                                                     "seed": ctx.seed, "suite": "MCSTAGEDMODES", "feat": base["feat"]})
+            if sum(len(r["checks"]) for r in a) >= 12:
+                ctx.nontrivial.add(sc_hash(g["FULL"]))
+
+
+# ---------------------------------------------------------------------------------------------------
 
 def match_known(mf, known):
     for k in known:
@@ -1321,7 +1380,7 @@ PROPERTIES = {
         "assumptions": STD_ASSUMPTIONS + ["state-based predicates; clock-independent programs"],
     },
     "C11": {
-        "suites": [suite_mc_matrix_sb, suite_mc_matrix, suite_clock],
+        "suites": [suite_mc_matrix_sb, suite_mc_matrix, suite_clock, suite_mc_staged_modes],
         "rule": "as C10, comparing Full / Partial / Disabled; plus clock-reading programs (known finding F14: witness "
                 "and random stream, Full vs Disabled).",
         "assumptions": STD_ASSUMPTIONS + ["no 64-bit hash collision (Partial is modelled as Full)",
